@@ -65,14 +65,21 @@ def parse(expr):
     return ("ok", r[1], I.tree_to_tuple(r[1]))
 
 
+def hint_text(k):
+    """the text of hint k in the harness environments: '' (legal) for every second key"""
+    return "" if int(k) % 2 == 0 else f"Hinweis {k}"
+
+
 def input_nodes(tt, assign):
     nodes = {}
     for k in R3.keys_of(tt):
         c = R8.category(k)
+        # every second node is an instance of a user SUBCLASS of the node class; hint texts may be empty
+        odd = (int(k) // 2) % 2 == 1
         if c == "rc":
-            nodes[k] = I.RequirementConstraint(condition_key=k, conditions_fulfilled=I.STATE[assign[k]])
+            nodes[k] = (I.UserRequirementConstraint if odd else I.RequirementConstraint)(condition_key=k, conditions_fulfilled=I.STATE[assign[k]])
         elif c == "hint":
-            nodes[k] = I.Hint(condition_key=k, hint=f"Hinweis {k}")
+            nodes[k] = (I.UserHint if odd else I.Hint)(condition_key=k, hint=hint_text(k))
         else:
             nodes[k] = I.UnevaluatedFormatConstraint(condition_key=k)
     return nodes
@@ -95,7 +102,7 @@ async def _no_yield(kind, key):
 def env_for(tt, assign, fc=None):
     """some requirement keys (mc.impl.sync_subset: every second key of the expression) are answered by SYNCHRONOUS evaluate methods, the others by coroutine methods
     (that never suspend): user evaluators may mix both kinds"""
-    hints = {k: f"Hinweis {k}" for k in R3.keys_of(tt, "hint")}
+    hints = {k: hint_text(k) for k in R3.keys_of(tt, "hint")}
     sync = {("rc", k) for k in I.sync_subset(assign)} | {("fc", k) for k in I.sync_subset(fc or {})}
     return I.Env(rc=dict(assign), fc=fc or {}, hints=hints, yielder=_no_yield, sync=sync)
 
